@@ -22,6 +22,8 @@ IMPORTS = ['From Coq Require Import QArith.', 'From E3FP Require Import Base.Pre
 OLD_NS = 1_000_000_000 * 10 ** 9          # mtime given to every pre-created file: any later write changes it
 RESUME_DB_KEY = 'run:db_file+out_dir_base:resumed-run-drops-skipped-molecules'
 NAMES = ['alpha', 'beta-x', 'g_m', 'CHEMBL25', 'delta.1', 'eps', 'zeta9', 'eta-1a']
+# protonation-state names as the conformer pipeline writes them: <molecule>-<state>; distinct molecules whose names differ only there
+PROTO_NAMES = ['LIG7-0', 'LIG7-1', 'LIG7-12']
 
 
 def sha(fn):
@@ -46,10 +48,14 @@ def make_inputs(ctx, d, n_good, bad_kinds, rng, confs=(2, 3)):
     os.makedirs(d, exist_ok=True)
     multi = [(t, m) for t, m in PG.shipped_mols() if m.GetNumConformers() >= 3]
     names = rng.sample(NAMES, n_good)
+    if n_good >= 2 and rng.random() < 0.5:
+        k2 = rng.choice([2, 3]) if n_good >= 3 else 2
+        for j, pn in zip(rng.sample(range(n_good), k2), rng.sample(PROTO_NAMES, k2)):
+            names[j] = pn
     out = []
     for k in range(n_good):
         tag, base = multi[(k + rng.randrange(len(multi))) % len(multi)]
-        nm = names[k] if rng.random() < 0.7 else '%s%d' % (PG.mol_name(base), k) + 'x'
+        nm = names[k] if (rng.random() < 0.7 or names[k] in PROTO_NAMES) else '%s%d' % (PG.mol_name(base), k) + 'x'
         mol = PG.make_mol(base, rng.choice(confs), nm)
         fn = os.path.join(d, 'in%d_%s.sdf%s' % (k, tag, rng.choice(['', '.bz2', '.gz'])))
         mol_to_sdf(mol, fn)
